@@ -172,6 +172,12 @@ Section Oracles.
     no_glob (normalize_words resolve1 resolve2 home cwd ws) = true -> ws <> [] -> extra <> [] ->
     wrm cwd false (cstr [] cwd false (ws ++ extra)) r = negb (r_exact r).
   Proof. exact (self_match_prefix resolve1 resolve2 home). Qed.
+  (* remote mode (since /repo 098b659): no path is resolved on either side, and a leading ~ of a command
+     word is expanded exactly as parse_config expands it in the pattern *)
+  Theorem C07_self_match_remote : forall cwd r ws,
+    r_pat r = join [c_sp] (map (expand_home_only home) ws) -> no_glob (r_pat r) = true ->
+    m_words [] [r] cwd true ws = Some r.
+  Proof. exact (self_match_remote resolve1 resolve2 home). Qed.
 End Oracles.
 Print Assumptions C07_last.
 Print Assumptions C07_inert.
@@ -191,6 +197,7 @@ Print Assumptions C07_pattern_tokenwise.
 Print Assumptions C07_pattern_is_words.
 Print Assumptions C07_self_match.
 Print Assumptions C07_self_match_prefix.
+Print Assumptions C07_self_match_remote.
 
 (* str.split() undoes ' '.join() on shell words *)
 Theorem C07_split_join : forall ws, forallb wordb ws = true -> split_py (join [c_sp] ws) = ws.
